@@ -107,7 +107,7 @@ pub struct Collector {
     start: std::time::Instant,
 }
 
-/// start (ms since the epoch) of the case the worker is executing, 0 between cases
+/// start (ms since the epoch) of the execution the worker is in (refreshed by every `catch`), 0 between cases
 static BUSY_SINCE_MS: std::sync::atomic::AtomicU64 = std::sync::atomic::AtomicU64::new(0);
 
 fn now_ms() -> u64 {
@@ -360,6 +360,11 @@ pub enum Caught<R> {
 }
 
 pub fn catch<R>(f: impl FnOnce() -> R) -> Caught<R> {
+    // every execution of the code under test passes through here: a case made of many executions
+    // keeps the watchdog quiet, one execution that does not return trips it
+    if BUSY_SINCE_MS.load(std::sync::atomic::Ordering::Relaxed) != 0 {
+        BUSY_SINCE_MS.store(now_ms().max(1), std::sync::atomic::Ordering::Relaxed);
+    }
     match std::panic::catch_unwind(std::panic::AssertUnwindSafe(f)) {
         Ok(r) => Caught::Ok(r),
         Err(_) => {
